@@ -67,7 +67,7 @@ def gen_instance(rng, profile=None):
             else:
                 dur[a][b] = rng.choice([0, 300, 600, 900, 1200, 2400])
                 dst[a][b] = rng.choice([0, 500, 1000, 3000, 8000, 2000000 if rng.random() < 0.05 else 1500])
-    if rng.random() < 0.05:
+    if rng.random() < 0.05 and nlocs >= 2:
         a, b = rng.sample(range(nlocs), 2)
         dur[a][b] = 5 * 86400  # exceeds planning duration -> capped
     # routes
@@ -118,6 +118,8 @@ def gen_instance(rng, profile=None):
         r = rng.randrange(nroutes)
         route = routes[r]
         t0 = grid * rng.randrange(0, max(1, horizon // grid))
+        if p.get("tie_all"):
+            t0 = grid * 4          # boundary profile: every departure starts at the same instant
         segs = []
         cur = t0
         for k, seg in enumerate(route["segments"]):
@@ -261,6 +263,20 @@ def gen_instance(rng, profile=None):
     if p.get("time_forms", "some") != "canonical":
         vary_time_strings(inst, force=p.get("time_forms") == "all")
     return inst
+
+
+BOUNDARY_PROFILES = [
+    {"nlocs": 1}, {"nlocs": 1, "slots": "some"}, {"nlocs": 1, "tie_all": True, "slots": "some", "depots": "absent"},
+    {"tie_all": True}, {"tie_all": True, "slots": "some", "zero_shunting": True}, {"ndeps": 1, "max_dsegs": 1},
+    {"ndeps": 1, "max_dsegs": 1, "slots": "some", "ntypes": 2}, {"ndeps": 1, "max_dsegs": 1, "slots": "zero_tracks"},
+    {"nlocs": 1, "ndeps": 1, "max_dsegs": 1, "depots": "zero"}, {"tie_all": True, "ntypes": 3, "depots": "scarce"},
+]
+
+
+def boundary_instances(rng, n):
+    """instances at the edges of the valid input space: a single location (routes from a place to itself), every departure at
+    the same instant, exactly one departure segment, combined with slots without tracks, empty depots, idle vehicle types"""
+    return [gen_instance(rng, dict(BOUNDARY_PROFILES[k % len(BOUNDARY_PROFILES)])) for k in range(n)]
 
 
 def _times(inst):
